@@ -298,6 +298,10 @@ pub fn main(tier: Option<&str>) {
             json!({"engine": "small-chunk-build (MAX_CHUNK_SIZE=1024, CHUNK_DOWNLOAD_BATCH_SIZE=3)", "witness": v["witness"]}),
         );
     }
+    let n_child = summary["violations"].as_array().map(|a| a.len()).unwrap_or(0);
+    if (out.status.code() == Some(1)) != (n_child > 0) {
+        run.machinery_error(&format!("the small-chunk build's exit status {:?} does not agree with the {n_child} violation(s) it reported", out.status.code()));
+    }
     if !matches!(out.status.code(), Some(0) | Some(1)) {
         run.machinery_error(&format!("the small-chunk build failed (exit {:?}): {}", out.status.code(), String::from_utf8_lossy(&out.stderr).chars().take(400).collect::<String>()));
     }
